@@ -73,6 +73,10 @@ func (mm *MMapRWManager) WriteAt(b []byte, off int64) (n int, err error) {
 func (mm *MMapRWManager) ReadAt(b []byte, off int64) (n int, err error) {
 	if mm.m == nil {
 		return 0, ErrUnmappedMemory
+	} else if off == int64(len(mm.m)) && len(b) == 0 {
+		// reading nothing at the very end is not out of bounds (as with *os.File): it is how the
+		// empty value of a record that ends exactly at the end of the segment is read
+		return 0, nil
 	} else if off >= int64(len(mm.m)) || off < 0 {
 		return 0, ErrIndexOutOfBound
 	}
